@@ -1,4 +1,6 @@
             let case_type: String = match f.type_override(SupportedLanguage::Swift) {
+                // An override replaces the translated type, not the fact that the field is optional.
+                Some(type_override) if f.ty.is_optional() => format!("{}?", type_override),
                 Some(type_override) => type_override.to_owned(),
                 None => self
                     .format_type(&f.ty, rs.generic_types.as_slice())
